@@ -1,5 +1,5 @@
 (* C10 — no terminal stall or configuration value can hang a client call.  Statements only. *)
-From Zvt Require Import Base Length Cp437 Encoding Codec Lookup Client ClientProps.
+From Zvt Require Import Base Length Cp437 Encoding Codec Lookup Client ClientProps ClientTime.
 Open Scope N_scope.
 
 (* the read-card timeout for EVERY configuration value: t + 2 seconds, never zero, no overflow *)
@@ -25,6 +25,36 @@ Proof. exact retry_fuel_irrelevant. Qed.
 Theorem C10_retry_budget_fits : forall q t, (rmeasure (start_retry q t) < RFUEL)%nat.
 Proof. exact retry_budget_fits. Qed.
 
+(* ELAPSED TIME.  One poll of the retrying stream, from any state: time never runs backwards, and the time
+   still needed if no further reply arrives (`potential`: attempts left x (throttle + 2 x timeout), plus one
+   timeout while inside an exchange) shrinks by at least the time that passed — except for one timeout per
+   reply item actually received.  Wherever the terminal falls silent (connect, registration, before the
+   acknowledgement, between replies), for every configuration. *)
+Theorem C10_poll_elapsed : forall cfg fuel r w it r' w', retry_next fuel cfg r w = (it, r', w') -> tinv r w ->
+  w_now w <= w_now w' /\ tinv r' w' /\ r_timeout r' = r_timeout r /\ r_throttle r' = r_throttle r /\
+  w_now w' + potential r' <= w_now w + potential r + item_cost r it.
+Proof. exact retry_next_time. Qed.
+
+(* a call made of one exchange: 20 attempts of (2 s + 2 x timeout) plus one timeout per reply item received
+   (n counts them; consume_n is `consume` with that counter) *)
+Theorem C10_single_exchange_call_elapsed : forall (A B : Type) cfg q t w acc (handle : A -> N -> value -> option (cres B) * A) finish fuel res w' n,
+  consume_n RFUEL fuel cfg (start_retry q t) w acc handle finish 0 = (res, w', n) ->
+  consume fuel cfg (start_retry q t) w acc handle finish = (res, w') /\ n <= N.of_nat fuel /\
+  w_now w <= w_now w' <= w_now w + 20 * (2000 + 2 * t) + n * t.
+Proof. exact @single_stream_call_elapsed. Qed.
+
+(* EVERY public operation (configure, read_card, begin / commit / cancel), every configuration, every
+   terminal script: it returns, and within a bound fixed by the retry budget and the per-packet timeouts
+   (Bt t = 20 x (2000 + 2t) + LOOPFUEL x t; B60 = Bt 60000; read_card runs under (timeout + 2) s) *)
+Theorem C10_every_call_returns_in_bounded_time : forall cfg st o w,
+  let T := (c_read_card_timeout cfg + 2) * 1000 in
+  let '(_, _, w') := run_op cfg st o w in
+  w_now w <= w_now w' <= w_now w + 6 * B60 + Bt T.
+Proof. exact every_call_returns_in_bounded_time. Qed.
+
+Example C10_ex_bounds : B60 = 26440000 /\ Bt ((255 + 2) * 1000) = 113120000 /\ Bt ((0 + 2) * 1000) = 920000.
+Proof. vm_compute. repeat split; reflexivity. Qed.
+
 Example C10_ex : (255 + 2) * 1000 = 257000 /\ (0 + 2) * 1000 = 2000.
 Proof. split; reflexivity. Qed.
 
@@ -32,3 +62,6 @@ Print Assumptions C10_read_card_timeout_ok.
 Print Assumptions C10_poll_ends_by_deadline.
 Print Assumptions C10_retry_budget_bounds_the_poll.
 Print Assumptions C10_retry_budget_fits.
+Print Assumptions C10_poll_elapsed.
+Print Assumptions C10_single_exchange_call_elapsed.
+Print Assumptions C10_every_call_returns_in_bounded_time.
